@@ -8,7 +8,7 @@ from core import BaseProp, Verdict
 from proto import T
 
 RULE = ('tables without aliases whose keys have no whitespace (keys in mixed case, exception flags) x texts over those keys in '
-        'random letter case, unknown words (also words in which an operator word is joined to the rest by - . : +), operators and parentheses in which no two plain words are adjacent, valid or not, strict '
+        'random letter case, unknown words (also words in which an operator word is joined to the rest by - . : +, and words that equal a key up to a compatibility form: fi ligature, fullwidth digit), operators and parentheses in which no two plain words are adjacent, valid or not, strict '
         'and not; Spec on the real code: parse(simple=True) and parse() have the same outcome - same tree, or same error kind, code, '
         'token and position. Correspondence: both outcomes with the model. Exhaustive: all token strings of length <= 4 (quick) / '
         '<= 5 (thorough) over {mit, MIT, Cp, foo, or-later, and, OR, with, (, )} without adjacent plain words. non-trivial = >= 2 tokens; '
@@ -32,6 +32,9 @@ class Prop(BaseProp):
             r = rng.random()
             if r < 0.5 and not prev_plain:
                 w = gen.recase(rng, rng.choice(keys)) if keys and rng.random() < 0.6 else rng.choice(gen.WORDS + gen.ODDWORDS + gen.BADWORDS[:1] + OPGLUED)
+                if keys and rng.random() < 0.1:
+                    # an unknown word that is a key of the table up to a Unicode compatibility form
+                    w = gen.compat_twin(rng.choice(keys)) or w
                 items.append(w)
                 prev_plain = True
             elif r < 0.8:
